@@ -250,18 +250,55 @@ def fan_filter(names):
     return ",".join(keep) if keep else "-"
 
 
-def project_fan(res, variant):
-    """acceptor input lines for one run"""
+def relay_capable(case):
+    """runs whose relay events can be replayed through the COMPOSED LTS (Dsh/FanRelay.lean): protocol granularity
+    with the workers' reads / closes logged inline, command personality, no timeouts that make a worker give up on
+    its streams, no ^C^Z"""
+    return (case.get("yield", "fan") == "fan" and case.get("inline") == 1 and not case.get("timed") and
+            not case.get("signals_case") and not case.get("signals") and
+            (case.get("opts") or {}).get("pers", "dsh") != "pcp")
+
+
+def relay_lines(tokens):
+    """inline operations of a worker on its connection -> lines for the composed acceptor"""
+    out = []
+    for t in tokens:
+        if len(t) < 3 or not t[0].startswith("W"):
+            continue
+        if t[1] == "read" and len(t) >= 6 and int(t[2]) >= 1000 and int(t[4]) > 0:
+            fd = int(t[2])
+            out.append("rd W%d %d %s" % ((fd - 1000) // 2, (fd - 1000) % 2, t[5]))
+        elif t[1] == "close" and int(t[2]) >= 1000:
+            fd = int(t[2])
+            out.append("fin W%d %d" % ((fd - 1000) // 2, (fd - 1000) % 2))
+        elif t[1] == "connectEnd" and int(t[3]) < 0:
+            out.append("cfail %s" % t[0])
+    return out
+
+
+def project_fan(res, variant, relay=False):
+    """acceptor input lines for one run; relay=True: in relay mode (the protocol composed with the relay: the
+    workers' reads and closes are events too)"""
     m = res["M"] or {}
-    L = ["init %s %s %s" % (variant, res["header"].get("fanout", m.get("fanout", "0")),
-                            res["header"].get("n", m.get("n", "0")))]
-    for s, ev in res["steps"]:
+    f, n = res["header"].get("fanout", m.get("fanout", "0")), res["header"].get("n", m.get("n", "0"))
+    if relay:
+        L = ["initr %s %s %s %d" % (variant, f, n, 1 if (res["case"].get("opts") or {}).get("sopt") else 0)]
+    else:
+        L = ["init %s %s %s" % (variant, f, n)]
+    inl = {}
+    for idx, t in (res["inline"] if relay else []):
+        inl.setdefault(idx, []).append(t)
+    for k, (s, ev) in enumerate(res["steps"]):
+        L += relay_lines(inl.get(k, []))            # what happened inline after step k-1
         fe = fan_event(ev)
         if fe is None:
             continue
         if s is not None:
             L.append("st %s %s %s %s" % (s["tc"], fan_filter(s["R"]), fan_filter(s["P"]), fan_filter(s["X"])))
         L.append("ev " + " ".join(fe))
+        if relay and ev[0].startswith("W") and ev[1] == "connectEnd" and int(ev[3]) < 0:
+            L.append("cfail %s" % ev[0])
+    L += relay_lines(inl.get(len(res["steps"]), []))
     status = m.get("status", "crash")
     if status == "deadlock" and res.get("last_S"):
         s = res["last_S"]
